@@ -12,6 +12,9 @@ RULES = {
     'R1': ('r01_iter', 'ITER: no structural removal from a container while a for walks it'),
     'R2': ('r02_pair', 'PAIR/DETACH: mirrored relations move together; removal cleans referrers'),
     'R3': ('r03_index', 'INDEX/RESET: derived state follows the primary container'),
+    'R4': ('r04_key', 'KEY: explicit id honoured, guard tests the stored key, names unique'),
+    'R5': ('r05_atomic', 'ATOMIC: Model mutators validate before they commit'),
+    'R7': ('r07_copy', 'COPY: hand-written deep copies complete, independent, re-linked'),
 }
 
 
@@ -126,15 +129,22 @@ _p('C01', 'Attack-graph edges are exactly the MAL meaning of the step expression
    anchors=[('R1', '_process_step_expression'), ('R2', 'AttackGraph._generate_graph')])
 
 _p('C02', 'One node per asset x step, with attributes faithful to model and language',
-   ['R3'],
+   ['R3', 'R4'],
    decided=['R3: every node entering the node list is registered in both lookup indexes and '
-            'advances the id counter (and symmetrically on removal)'],
+            'advances the id counter (and symmetrically on removal)',
+            'R4: add_node honours an explicit id by an is-None test, its duplicate test checks the '
+            'id that is actually stored, the counter is max(id+1, counter); the asset name that '
+            'add_asset records was tested for uniqueness after its last assignment (full names '
+            'are asset name + step name)'],
    undecided=['value-level equality of node attributes', 'pjs default/validation behaviour'],
-   anchors=[('R3', 'AttackGraph.add_node')])
+   anchors=[('R3', 'AttackGraph.add_node'), ('R4', 'AttackGraph.add_node'), ('R4', 'Model.add_asset')])
 
 _p('C05', 'The instance model stays coherent under any history of edits',
-   ['R1', 'R2', 'R3'],
+   ['R1', 'R2', 'R3', 'R4', 'R5'],
    decided=['R1: no Model mutator removes from a list it walks',
+            'R4: explicit asset/attacker ids (0 included) are honoured, the id guard tests the stored '
+            'id, recorded names are unique',
+            'R5: no explicit raise is reachable after a write to model state in any Model mutator',
             'R2: association-field membership and asset.associations change together (P5); '
             'removing an asset/association cleans association fields, entry points, member lists',
             'R3: assets <-> asset_ids, asset_names and associations <-> _type_to_association move '
@@ -143,11 +153,16 @@ _p('C05', 'The instance model stays coherent under any history of edits',
    anchors=[('R1', 'Model.remove_asset'), ('R2', 'Model.remove_asset'),
             ('R2', 'Model.remove_asset_from_association'), ('R2', 'Model.remove_association'),
             ('R3', 'Model.add_asset'), ('R3', 'Model.remove_asset'),
-            ('R3', 'Model.add_association'), ('R3', 'Model.remove_association')])
+            ('R3', 'Model.add_association'), ('R3', 'Model.remove_association'),
+            ('R4', 'Model.add_asset'), ('R4', 'Model.add_attacker'), ('R5', 'Model.add_asset'),
+            ('R5', 'Model.remove_asset_from_association')])
 
 _p('C09', 'Attack-graph structure and lookup indexes stay consistent in any history',
-   ['R1', 'R2', 'R3'],
+   ['R1', 'R2', 'R3', 'R4', 'R7'],
    decided=['R1: no loop of the attack-graph layer removes from the list it walks',
+            'R4: node/attacker ids: explicit id honoured, duplicate test on the stored id, counters monotone',
+            'R7: the graph deep copy carries indexes and counters and re-links children, parents and '
+            'compromised_by through the memo',
             'R2: children/parents and compromised_by/reached_attack_steps are updated pairwise; '
             'remove_node / remove_attacker clean every referrer (neighbours, attackers, entry points)',
             'R3: nodes <-> _id_to_node, _full_name_to_node, next_node_id and attackers <-> '
@@ -159,17 +174,20 @@ _p('C09', 'Attack-graph structure and lookup indexes stay consistent in any hist
             ('R2', 'AttackGraph.remove_attacker'),
             ('R3', 'AttackGraph.add_node'), ('R3', 'AttackGraph.remove_node'),
             ('R3', 'AttackGraph.add_attacker'), ('R3', 'AttackGraph.remove_attacker'),
-            ('R3', 'AttackGraph.regenerate_graph')])
+            ('R3', 'AttackGraph.regenerate_graph'), ('R4', 'AttackGraph.add_node'),
+            ('R4', 'AttackGraph.add_attacker'), ('R7', 'AttackGraph.__deepcopy__')])
 
 _p('C11', 'Attackers and nodes always agree on what is compromised',
-   ['R1', 'R2'],
+   ['R1', 'R2', 'R7'],
    decided=['R1: remove_attacker does not shrink the reached list while walking it',
             'R2: compromise/undo_compromise update node.compromised_by and '
             'attacker.reached_attack_steps together on the same two objects; remove_attacker '
-            'cleans compromised_by'],
+            'cleans compromised_by',
+            'R7c: the graph copy re-links compromised_by from memo-mapped attackers'],
    undecided=['pjs/name lookups'],
    anchors=[('R1', 'AttackGraph.remove_attacker'), ('R2', 'Attacker.compromise'),
-            ('R2', 'Attacker.undo_compromise'), ('R2', 'AttackGraph.remove_attacker')])
+            ('R2', 'Attacker.undo_compromise'), ('R2', 'AttackGraph.remove_attacker'),
+            ('R7', 'AttackGraph.__deepcopy__')])
 
 _p('C13', 'Pruning removes exactly the non-viable or unnecessary attack steps',
    ['R1', 'R2', 'R3'],
@@ -180,6 +198,19 @@ _p('C13', 'Pruning removes exactly the non-viable or unnecessary attack steps',
    anchors=[('R1', 'prune_unviable_and_unnecessary_nodes'), ('R2', 'AttackGraph.remove_node'),
             ('R3', 'AttackGraph.remove_node')],
    also=[('R2', 'AttackGraph.remove_node'), ('R3', 'AttackGraph.remove_node')])
+
+_p('C14', 'A deep copy of an attack graph is equal and fully independent',
+   ['R7'],
+   decided=['R7a: every field of node / attacker / graph receives its value in the copy, scalars and '
+            'shared fields (asset, model, lang_graph) from the same field of the original',
+            'R7b: every mutable container field gets an independent value (empty literal, deepcopy with '
+            'memo, or shallow copy of scalars); containers of graph objects thread the memo',
+            'R7c: children, parents, compromised_by are re-linked by the graph copy from memo-mapped copies',
+            'R7d: node list, attackers, lookup dictionaries and counters are carried over',
+            'R7e: each __deepcopy__ consults the memo and registers its copy'],
+   undecided=['behaviour of copy.deepcopy itself', 'value equality of serialised content'],
+   anchors=[('R7', 'AttackGraphNode.__deepcopy__'), ('R7', 'Attacker.__deepcopy__'),
+            ('R7', 'AttackGraph.__deepcopy__')], floor=20)
 
 _p('C15', 'Language graph mirrors the language and over-approximates every attack graph',
    ['R2', 'R3'],
